@@ -1,5 +1,248 @@
-import GcmpyModel.Model.SplitDegree
-import GcmpyModel.Model.Cover
-namespace Gcmpy.Loaders
-theorem placeholder_C07 : True := trivial
-end Gcmpy.Loaders
+import GcmpyModel.Lemmas.SplitDegree
+/-!
+Property C07: `JointDegreeSplitDegree` and `JointDegreeDelta`
+(model: `GcmpyModel/Model/SplitDegree.lean`; helper lemmas: `GcmpyModel/Lemmas/SplitDegree.lean`).
+
+Notation used in the statements (both defined in the lemma file):
+  `splitTotal probs k`  = `W k` = `((validSplits k probs.length).map (splitWeight probs)).sum`
+  `S` is written out as `((rangeAB lo hi).map fp).sum`.
+-/
+namespace Gcmpy.SplitDegree
+open Gcmpy Gcmpy.Loaders
+
+/-- `W k` spelled out -/
+theorem splitTotal_eq (probs : List Rat) (k : Nat) :
+    splitTotal probs k = ((validSplits k probs.length).map (splitWeight probs)).sum := rfl
+
+/-! ## 1. the recursive generator enumerates exactly the admissible splits, each once -/
+
+theorem validSplits_sound {k t : Nat} {jd : JD} (h : jd ∈ validSplits k t) :
+    jd.length = t ∧ edgesOf jd = k :=
+  validSplits_sound' k t jd h
+
+theorem validSplits_complete {k t : Nat} {jd : JD} (ht : 1 ≤ t) (hl : jd.length = t)
+    (he : edgesOf jd = k) : jd ∈ validSplits k t := by
+  obtain ⟨n, rfl⟩ : ∃ n, t = n + 1 := ⟨t - 1, by omega⟩
+  exact validSplits_complete' n k jd hl he
+
+theorem validSplits_nodup (k t : Nat) : (validSplits k t).Nodup := validSplits_nodup' k t
+
+theorem mem_validSplits_iff {k t : Nat} {jd : JD} (ht : 1 ≤ t) :
+    jd ∈ validSplits k t ↔ jd.length = t ∧ edgesOf jd = k :=
+  ⟨validSplits_sound, fun h => validSplits_complete ht h.1 h.2⟩
+
+/-! ## 2. `resolve_degree` -/
+
+/-- every split of `k` gets `w` times its weight normalised within the class -/
+theorem resolve_get_split {probs : List Rat} {k : Nat} {w : Rat} {table table' : Table} {jd : JD}
+    (h : resolve probs k w table = .ok table') (hjd : jd ∈ validSplits k probs.length) :
+    Dict.get table' jd = some (w * (splitWeight probs jd / splitTotal probs k)) := by
+  have ht : 1 ≤ probs.length := by
+    rcases Nat.eq_zero_or_pos probs.length with h0 | h0
+    · rw [h0] at hjd; simp [validSplits] at hjd
+    · exact h0
+  rw [resolve_eq _ _ _ _ ht] at h
+  split at h
+  · cases h
+  · injection h with h
+    rw [← h, get_foldl_set, if_pos hjd]
+
+/-- entries of other degrees are untouched -/
+theorem resolve_get_other {probs : List Rat} {k : Nat} {w : Rat} {table table' : Table} {jd : JD}
+    (h : resolve probs k w table = .ok table') (hne : edgesOf jd ≠ k) :
+    Dict.get table' jd = Dict.get table jd := by
+  rcases Nat.eq_zero_or_pos probs.length with h0 | ht
+  · simp only [resolve, h0, validSplits, List.isEmpty_nil, if_true] at h
+    injection h with h; rw [h]
+  · rw [resolve_eq _ _ _ _ ht] at h
+    split at h
+    · cases h
+    · injection h with h
+      rw [← h, get_foldl_set, if_neg]
+      exact fun hm => hne (validSplits_sound hm).2
+
+/-- on a table holding no split of `k` yet, the splits are appended in generator order -/
+theorem resolve_keys {probs : List Rat} {k : Nat} {w : Rat} {table table' : Table}
+    (ht : 1 ≤ probs.length) (hk : ∀ jd ∈ Dict.keys table, edgesOf jd ≠ k)
+    (h : resolve probs k w table = .ok table') :
+    Dict.keys table' = Dict.keys table ++ validSplits k probs.length := by
+  obtain ⟨_, rfl⟩ := resolve_ok_append probs k w table table' ht hk h
+  simp only [Dict.keys, List.map_append]
+  rw [splitRows_keys]
+
+/-- the `ZeroDivisionError` branch is taken exactly when the class total vanishes -/
+theorem resolve_error_iff {probs : List Rat} {k : Nat} {w : Rat} {table : Table}
+    (ht : 1 ≤ probs.length) :
+    resolve probs k w table = .error .zeroDivision ↔ splitTotal probs k = 0 := by
+  rw [resolve_eq _ _ _ _ ht]
+  constructor
+  · intro h; split at h
+    · assumption
+    · cases h
+  · intro h; rw [if_pos h]
+
+/-- `probs = [0, 1]`, odd `k`: every split uses at least one ordinary edge, all weights vanish -/
+theorem resolve_zeroDivision_of_odd (k : Nat) (w : Rat) (table : Table) (hk : k % 2 = 1) :
+    resolve [0, 1] k w table = .error .zeroDivision := by
+  rw [resolve_error_iff (by simp), splitTotal_eq]
+  apply List.sum_eq_zero
+  intro x hx
+  obtain ⟨jd, hjd, rfl⟩ := List.mem_map.1 hx
+  simp only [List.length_cons, List.length_nil, validSplits, List.mem_flatMap, List.mem_range,
+    List.mem_map, List.mem_singleton] at hjd
+  obtain ⟨i, hi, row, rfl, rfl⟩ := hjd
+  have h2 : i * 2 ≤ k := (Nat.le_div_iff_mul_le (by omega)).1 (by omega)
+  have : k - i * 2 ≠ 0 := by omega
+  simp [splitWeight, this]
+
+/-! ## 3. the split-degree loader -/
+
+section Split
+variable {fp : Nat → Rat} {probs : List Rat} {lo hi : Nat} {T : Table}
+
+/-- a successful run means no class total vanished -/
+theorem split_ok_totals (ht : 1 ≤ probs.length) (h : splitDegree fp probs lo hi = .ok T)
+    (k : Nat) (h1 : lo ≤ k) (h2 : k < hi) : splitTotal probs k ≠ 0 :=
+  (splitDegree_ok ht h).1 k ((mem_rangeAB lo hi k).2 ⟨h1, h2⟩)
+
+/-- the total mass of overall degree `k` is `fp k / S` -/
+theorem split_class_mass (ht : 1 ≤ probs.length) (h : splitDegree fp probs lo hi = .ok T)
+    (k : Nat) (h1 : lo ≤ k) (h2 : k < hi) :
+    ((T.filter (fun p => edgesOf p.1 = k)).map (·.2)).sum = fp k / ((rangeAB lo hi).map fp).sum :=
+  classes_mass (rangeAB_nodup lo hi) (fun k _ => splitRows_edges _ _ k) (split_hS ht h)
+    (splitDegree_ok ht h).2 k ((mem_rangeAB lo hi k).2 ⟨h1, h2⟩)
+
+/-- within one overall degree the mass is proportional to `splitWeight` -/
+theorem split_within_class (ht : 1 ≤ probs.length) (h : splitDegree fp probs lo hi = .ok T)
+    {jd : JD} {k : Nat} (he : edgesOf jd = k) (h1 : lo ≤ k) (h2 : k < hi)
+    (hl : jd.length = probs.length) :
+    Dict.get T jd = some (fp k * (splitWeight probs jd / splitTotal probs k)
+      / ((rangeAB lo hi).map fp).sum) :=
+  classes_get (rangeAB_nodup lo hi) (fun k _ => splitRows_edges _ _ k)
+    (fun k _ => splitRows_nodup _ _ k) (split_hS ht h) (splitDegree_ok ht h).2 k
+    ((mem_rangeAB lo hi k).2 ⟨h1, h2⟩) jd _
+    (List.mem_map.2 ⟨jd, validSplits_complete ht hl he, rfl⟩)
+
+theorem split_sums_one (h : splitDegree fp probs lo hi = .ok T) (hT : T ≠ []) :
+    (T.map (·.2)).sum = 1 := by
+  simp only [splitDegree, bind, Except.bind] at h
+  split at h
+  · cases h
+  · exact normalise_sums_one h hT
+
+/-- the keys are exactly the joint degrees of the right length whose edge count lies in the range -/
+theorem split_support (ht : 1 ≤ probs.length) (h : splitDegree fp probs lo hi = .ok T) (jd : JD) :
+    jd ∈ T.map (·.1) ↔ jd.length = probs.length ∧ lo ≤ edgesOf jd ∧ edgesOf jd < hi := by
+  rw [classes_keys (split_hS ht h) (splitDegree_ok ht h).2, List.mem_flatMap]
+  constructor
+  · rintro ⟨k, hk, hjd⟩
+    rw [splitRows_keys] at hjd
+    obtain ⟨hl, rfl⟩ := validSplits_sound hjd
+    exact ⟨hl, (mem_rangeAB lo hi _).1 hk⟩
+  · rintro ⟨hl, hr⟩
+    refine ⟨edgesOf jd, (mem_rangeAB lo hi _).2 hr, ?_⟩
+    rw [splitRows_keys]
+    exact validSplits_complete ht hl rfl
+
+/-- the keys are distinct (the association list is a genuine dictionary) -/
+theorem split_keys_nodup (ht : 1 ≤ probs.length) (h : splitDegree fp probs lo hi = .ok T) :
+    (T.map (·.1)).Nodup := by
+  rw [classes_keys (split_hS ht h) (splitDegree_ok ht h).2]
+  have := keys_flatMap_nodup (fun k => splitRows probs (fp k) k) (rangeAB lo hi) (rangeAB_nodup lo hi)
+    (fun k _ => splitRows_edges _ _ k) (fun k _ => splitRows_nodup _ _ k)
+  simpa only [Dict.keys, List.map_flatMap] using this
+
+end Split
+
+/-! ## 4. the delta loader (`nTop = probs.length`) -/
+
+section Delta
+variable {fp : Nat → Rat} {probs : List Rat} {lo hi target : Nat} {T : Table}
+
+theorem delta_ok_total (ht : 1 ≤ probs.length)
+    (h : delta probs.length fp probs lo hi target = .ok T) (h1 : lo ≤ target) (h2 : target < hi) :
+    splitTotal probs target ≠ 0 :=
+  (delta_ok ht h).1 ((mem_rangeAB lo hi _).2 ⟨h1, h2⟩)
+
+/-- a degree other than the target sits entirely on the pure key `(k, 0, …, 0)` -/
+theorem delta_off_target (ht : 1 ≤ probs.length)
+    (h : delta probs.length fp probs lo hi target = .ok T)
+    {k : Nat} (h1 : lo ≤ k) (h2 : k < hi) (hk : k ≠ target) :
+    Dict.get T (k :: List.replicate (probs.length - 1) 0) = some (fp k / ((rangeAB lo hi).map fp).sum)
+    ∧ ∀ jd ∈ T.map (·.1), edgesOf jd = k → jd = k :: List.replicate (probs.length - 1) 0 := by
+  constructor
+  · exact classes_get (rangeAB_nodup lo hi) (fun k _ => deltaRows_edges _ _ _ _ k)
+      (fun k _ => deltaRows_nodup _ _ _ _ k) (delta_hS ht h) (delta_ok ht h).2 k
+      ((mem_rangeAB lo hi k).2 ⟨h1, h2⟩) _ _ (by simp [deltaRows, hk])
+  · intro jd hjd he
+    rw [classes_keys (delta_hS ht h) (delta_ok ht h).2, List.mem_flatMap] at hjd
+    obtain ⟨k', _, hjd⟩ := hjd
+    obtain ⟨p, hp, rfl⟩ := List.mem_map.1 hjd
+    have := deltaRows_edges _ _ _ _ k' p hp
+    rw [he] at this; subst this
+    simpa [deltaRows, hk] using congrArg Prod.fst (show p = _ by simpa [deltaRows, hk] using hp)
+
+/-- the target degree is split exactly as in the split-degree loader -/
+theorem delta_on_target (ht : 1 ≤ probs.length)
+    (h : delta probs.length fp probs lo hi target = .ok T)
+    (h1 : lo ≤ target) (h2 : target < hi) {jd : JD} (hjd : jd ∈ validSplits target probs.length) :
+    Dict.get T jd = some (fp target * (splitWeight probs jd / splitTotal probs target)
+      / ((rangeAB lo hi).map fp).sum) :=
+  classes_get (rangeAB_nodup lo hi) (fun k _ => deltaRows_edges _ _ _ _ k)
+    (fun k _ => deltaRows_nodup _ _ _ _ k) (delta_hS ht h) (delta_ok ht h).2 target
+    ((mem_rangeAB lo hi _).2 ⟨h1, h2⟩) jd _
+    (by simp only [deltaRows, ne_eq, not_true_eq_false, if_false]
+        exact List.mem_map.2 ⟨jd, hjd, rfl⟩)
+
+/-- class masses, as for the split-degree loader -/
+theorem delta_class_mass (ht : 1 ≤ probs.length)
+    (h : delta probs.length fp probs lo hi target = .ok T) (k : Nat) (h1 : lo ≤ k) (h2 : k < hi) :
+    ((T.filter (fun p => edgesOf p.1 = k)).map (·.2)).sum = fp k / ((rangeAB lo hi).map fp).sum :=
+  classes_mass (rangeAB_nodup lo hi) (fun k _ => deltaRows_edges _ _ _ _ k) (delta_hS ht h)
+    (delta_ok ht h).2 k ((mem_rangeAB lo hi k).2 ⟨h1, h2⟩)
+
+/-- a target outside the degree range is never resolved: all keys are pure -/
+theorem delta_target_outside_range (ht : 1 ≤ probs.length)
+    (h : delta probs.length fp probs lo hi target = .ok T) (ho : target < lo ∨ hi ≤ target) (jd : JD) :
+    jd ∈ T.map (·.1) ↔ ∃ k, lo ≤ k ∧ k < hi ∧ jd = k :: List.replicate (probs.length - 1) 0 := by
+  rw [classes_keys (delta_hS ht h) (delta_ok ht h).2, List.mem_flatMap]
+  constructor
+  · rintro ⟨k, hk, hjd⟩
+    have hr := (mem_rangeAB lo hi k).1 hk
+    have hkt : k ≠ target := by omega
+    exact ⟨k, hr.1, hr.2, by simpa [deltaRows, hkt] using hjd⟩
+  · rintro ⟨k, h1, h2, rfl⟩
+    have hkt : k ≠ target := by omega
+    exact ⟨k, (mem_rangeAB lo hi k).2 ⟨h1, h2⟩, by simp [deltaRows, hkt]⟩
+
+theorem delta_sums_one {nTop : Nat} (h : delta nTop fp probs lo hi target = .ok T) (hT : T ≠ []) :
+    (T.map (·.2)).sum = 1 := by
+  simp only [delta, bind, Except.bind] at h
+  split at h
+  · cases h
+  · exact normalise_sums_one h hT
+
+end Delta
+
+/-! ## 5. non-vacuity -/
+
+example : validSplits 5 2 = [[5, 0], [3, 1], [1, 2]] := by decide
+
+example : splitDegree (fun k => (k : Rat)) [1/2, 1/3] 1 4 =
+    .ok [([1, 0], 1/6), ([2, 0], 3/13), ([0, 1], 4/39), ([3, 0], 9/26), ([1, 1], 2/13)] := by
+  decide +kernel
+
+example : delta 2 (fun k => (k : Rat)) [1/2, 1/3] 1 4 2 =
+    .ok [([1, 0], 1/6), ([2, 0], 3/13), ([0, 1], 4/39), ([3, 0], 1/2)] := by
+  decide +kernel
+
+example : delta 2 (fun k => (k : Rat)) [1/2, 1/3] 1 4 7 =
+    .ok [([1, 0], 1/6), ([2, 0], 1/3), ([3, 0], 1/2)] := by
+  decide +kernel
+
+/-- the division-by-zero branch is reachable -/
+example : resolve [0, 1] 3 1 [] = .error .zeroDivision := by decide +kernel
+
+example : splitDegree (fun _ => 1) [0, 1] 1 2 = .error .zeroDivision := by decide +kernel
+
+end Gcmpy.SplitDegree
